@@ -9,7 +9,7 @@ DEFAULT_PROFILE = dict(
     p_opt=0.1, p_split=0.15, p_default=0.35, p_subdir=0.2, p_twodot=0.3,
     steps=(6, 18),
     ops=dict(build=8, edit_r=3, edit_i=2, touch=1, rm=2, doedit=1, doadd=1, dorm=1, sel=2, flag=2, watch=2,
-             force=1, repeat=2, uwrite=0, urm=0, dorm_last=0.5, m_watchduring=0),
+             force=1, repeat=2, uwrite=0, urm=0, dorm_last=0.5, m_watchduring=0, chmod=0),
     jmax=1, p_keep=0.0, p_multi=0.25,
 )
 
@@ -322,6 +322,9 @@ def gen_op(rnd, p, prof, last_build=None):
         top = rnd.choice(sorted(p.dependents(s_)))
         b = ('build', [top], dict(j=1, keep=False, forced=False))
         return [b, ('edit_r', src), ('stampflip', s_), b, ('edit_back', src), ('stampflip', s_), b, b]
+    if op == 'chmod':
+        c = [n for n in tnames if not p.targets[n].get('phony') and not p.targets[n].get('linkout')]
+        return ('chmod', rnd.choice(c)) if c else None
     if op == 'urm':
         return ('urm', rnd.choice(tnames))
     return None
